@@ -1,0 +1,26 @@
+//! Coverage counters for the verification harness.
+//!
+//! Compiled only with `--cfg recmo_uint_verif`; the crate is unchanged otherwise.
+#![allow(missing_docs, clippy::missing_inline_in_public_items)]
+
+use core::sync::atomic::{AtomicU64, Ordering};
+
+pub const N: usize = 32;
+
+#[allow(clippy::declare_interior_mutable_const)]
+const ZERO: AtomicU64 = AtomicU64::new(0);
+static COUNTERS: [AtomicU64; N] = [ZERO; N];
+
+#[inline]
+pub fn hit(i: usize) {
+    COUNTERS[i].fetch_add(1, Ordering::Relaxed);
+}
+
+#[must_use]
+pub fn snapshot() -> [u64; N] {
+    let mut r = [0; N];
+    for (r, c) in r.iter_mut().zip(COUNTERS.iter()) {
+        *r = c.load(Ordering::Relaxed);
+    }
+    r
+}
